@@ -12,8 +12,7 @@ open Cubed Cubed.SpecThread
 
 /-- (a) No creation site in the library drops the spec or passes it in a way the extractor cannot read: every call of
 an array creator inside `cubed/` passes `spec=` (derived from an operand, forwarded from its own parameter, inherited
-by `*_like`, or a literal `Spec(...)`), with the single documented exception of the self-recursive unwrap in `asarray`.
-A new helper array created without `spec=` makes this `decide` fail. -/
+by `*_like`, or a literal `Spec(...)`).  A new helper array created without `spec=` makes this `decide` fail. -/
 theorem C19_helpers_thread_spec :
     ∀ p ∈ GeneratedC19.sites, Kind.ofCode p.2 ≠ Kind.missing ∧ Kind.ofCode p.2 ≠ Kind.unknown := by
   decide
@@ -21,10 +20,10 @@ theorem C19_helpers_thread_spec :
 example : GeneratedC19.sites.length ≥ 40 ∧ (Kind.operand ∈ siteKinds) ∧ (Kind.param ∈ siteKinds) ∧ (Kind.like ∈ siteKinds) := by
   decide
 
-/-- (a') … and the only sites that neither derive the spec from an operand nor forward their own parameter are among
-the two self-contained ones, pinned by id: `measure_reserved_mem` builds its own `Spec(...)` for a stand-alone
-computation, and the xarray branch of `asarray` re-enters `asarray(a.data)` without forwarding `spec` (listed finding
-`asarray-xarray-unwrap-drops-spec`; the statement stays true if that call is repaired). -/
+/-- (a') … and the only sites that neither derive the spec from an operand nor forward their own parameter are pinned by
+id: `measure_reserved_mem` builds its own `Spec(...)` for a stand-alone computation.  (The xarray branch of `asarray`
+used to re-enter `asarray(a.data)` without `spec`; since the fix it forwards its parameter.  The id stays in the list so
+that the statement is about "at most these"; a `selfUnwrap` anywhere else fails the check.) -/
 theorem C19_non_threaded_sites_pinned :
     ∀ p ∈ GeneratedC19.sites, (Kind.ofCode p.2).threaded = true ∨
       (p.1, Kind.ofCode p.2) ∈
